@@ -117,6 +117,20 @@ impl UnitRunner for C15 {
           let at_max = is_int(kind) && { let mx = kind_max(kind); bv.0.to_string() == mx.text() || av.0.to_string() == mx.text() };
           let got: Option<(String, Vec<String>)> = match &o { Outcome::Value(c) => Some(match c { Canon::Matrix(k, _, _, e, _) => (k.clone(), e.iter().map(|x| x.bare()).collect()), other => (other.kind_name(), vec![other.bare()]) }), _ => None };
           if let Outcome::Panic(m) = &o { out.fail(format!("C15|panic|{}:{}", fname, kclass), case, m.clone()); continue; }
+          // the same range with its operands written as literals (f64, and unsigned kinds through their suffix) must give the same outcome
+          if kind == "f64" || kind == "u8" || kind == "u16" || kind == "u32" {
+            let lit = |d: &str| -> Option<String> { d.split(":= ").nth(1).map(|t| { let t = t.trim().to_string(); let t = if kind == "f64" { t } else { format!("{}{}", t, kind) }; if t.starts_with('-') { format!("({})", t) } else { t } }) };
+            if let (Some(la), Some(lb)) = (lit(&da), lit(&db)) {
+              let ls = ds.as_ref().and_then(|d| lit(d));
+              if s.is_none() || ls.is_some() {
+                let lexpr = form.replace("{a}", &la).replace("{b}", &lb).replace("{s}", &ls.unwrap_or_default());
+                out.evaluations += 1;
+                let ol = sess.run(&format!("l{} := {}", n, lexpr));
+                let same = match (&o, &ol) { (Outcome::Value(x), Outcome::Value(y)) => x == y, (Outcome::Value(_), _) | (_, Outcome::Value(_)) => false, (_, Outcome::Panic(_)) => false, _ => true };
+                if same { out.count("literal_operands_agree"); } else { out.fail(format!("C15|operand-spelling-differs|{}:{}", fname, kclass), format!("{}; literal spelling r := {}", case.clone(), lexpr), format!("with variables {}, with literals {}", o.short(), ol.short())); }
+              }
+            }
+          }
           match want {
             Want::Skip => { out.count("skipped_longer_than_64"); }
             Want::Terms(t) => {
